@@ -106,6 +106,10 @@ def gen_case(chk, i):
     rng = chk.rng(i)
     mode = ["target", "target", "target", "dense", "edge", "soup", "target", "edge"][i % 8]
     nth = 1 if mode in ("dense",) or rng.random() < 0.6 else rng.randint(2, 4)
+    many = (i % 16 == 13)
+    if many:
+        # a process with more threads than the emulator will later have file descriptors
+        mode, nth = "soup", rng.randint(40, 60)
     secs = []
     infos = []
     # target cases are numbered so that 22 consecutive ones cover 1..64 (+2 random)
@@ -113,6 +117,12 @@ def gen_case(chk, i):
     deltas = [1 + (tindex * 3 + k) % 64 for k in range(3)]
     for t in range(nth):
         ops, inf = gen_thread(rng, 500 + t, t, mode if t == 0 else "soup", 0, deltas if t == 0 else None)
+        if many:
+            # keep each of the many threads short
+            k0 = ops.index("ev OHx now %s" % obs.i32(t, 500 + t, 0).hex())
+            k1 = len(ops) - 1 - ops[::-1].index("ev OHe now -")
+            ops = ops[:k0 + 1] + ops[k0 + 1:min(k0 + 13, k1)] + ops[k1:]
+            ops = [o for o in ops if not o.startswith("mark_p")]      # no half pairs left by the cut
         if t > 0:
             # the first thread declares all CPUs of the loom; the others none
             ops = [o for o in ops if not o.startswith("cpu ")]
@@ -228,7 +238,7 @@ def run_case(i):
             cpus += st.get("cpus", 0)
         if cpus == 0:
             out["viol"] = ("metadata-incomplete:no-loom-cpus", "no stream of the loom carries loom_cpus", {}); return out
-        r = emu.emu(plain, tdir, ["-l"], timeout=120)
+        r = emu.emu(plain, tdir, ["-l"], timeout=120, nofile=32 if info["threads"] >= 40 else None)
         if r.timeout:
             out["inconclusive"] = "emulator timeout"; return out
         if not emu.accepted(r):
